@@ -33,6 +33,10 @@ structure Inv (P : Params V) (T : Tables) (w : World V) : Prop where
   creg : CachedRegistered T w
   rdef : RegsDefault T w
 
+/-- does the delivery `e` (object, notification) destroy what is cached under `nm` on `o`? -/
+def hitB (T : Tables) (regs : List (String × String × Destr)) (e : Obj × String) (o : Obj) (nm : String) : Bool :=
+  decide (e.1 = o) && (facsOf T regs o.cls).any fun p => decide (p.1 = nm) && p.2.hit e.2
+
 /-! ### the component graph -/
 
 /-- `ReadsN gs n x a`: the outline of the glyph named `x` reads the name `a` through `n` component hops -/
